@@ -101,10 +101,10 @@ class LineScheduler:
         def runner(tid):
             sys.settrace(self._global(tid))
             try:
-                self._record({'op': 'call', 't': tid})
+                self._record({'op': 'call', 't': tid, 'kind': 'c', 'ok': '-'})
                 ok = body(tid)
                 results[tid] = ok
-                self._record({'op': 'ret', 't': tid, 'ok': 'yes' if ok else 'no'})
+                self._record({'op': 'ret', 't': tid, 'kind': 'c', 'ok': 'yes' if ok else 'no'})
             finally:
                 sys.settrace(None)
                 with self.cv:
@@ -198,92 +198,93 @@ def body(tid):
     return True
 
 
-def sequential_traces() -> list[dict]:
+HAND_SCRIPTS = {
+    'seq-1-then-2': [(1, 'c'), (2, 'c')],
+    'seq-2-then-1': [(2, 'c'), (1, 'c')],
+    'seq-1-close-2': [(1, 'c'), (1, 'x'), (2, 'c')],
+    'seq-1-1-2-1': [(1, 'c'), (1, 'c'), (2, 'c'), (1, 'c')],
+    'seq-1-close-2-1': [(1, 'c'), (1, 'x'), (2, 'c'), (1, 'c')],
+}
+
+
+def _constructor(op, tmp):
+    """The real constructor call of a script operation (GuardGen.tla Ops)."""
     TS = _store_cls()
-    out = []
+    if op == 'c':
+        return TS.create()
+    if op == 'fa':
+        return TS.open()  # READ mode without a base file: refused by the argument check
+    if op == 'fo':
+        return TS.open(base_file=tmp / 'not-netcdf.nc')
+    if op == 'fm':
+        return TS.open(base_file=tmp / 'missing.nc')
+    raise MachineryError(f'unknown script operation {op}')
 
-    def in_thread(fn):
-        r = {}
 
-        def w():
-            try:
-                r['v'] = fn()
-            except RuntimeError:
-                r['v'] = None
+def run_script(script, tmp) -> list[dict]:
+    """Run a sequential script over two real threads; -> call/ret/close events."""
+    import queue
 
-        th = threading.Thread(target=w)
-        th.start()
-        th.join()
-        return r['v']
+    _reset_guard()
+    ev: list = []
+    qs = {t: queue.Queue() for t in (1, 2)}
+    done: queue.Queue = queue.Queue()
 
-    def attempt(ev, t, keep):
-        ev.append({'op': 'call', 't': t})
-        s = in_thread(TS.create)
-        ev.append({'op': 'ret', 't': t, 'ok': 'yes' if s is not None else 'no'})
-        if s is not None:
-            keep[t] = s
-
-    for name, script in (
-        ('seq-1-then-2', [(1, 'c'), (2, 'c')]),
-        ('seq-2-then-1', [(2, 'c'), (1, 'c')]),
-        ('seq-1-close-2', [(1, 'c'), (1, 'x'), (2, 'c')]),
-        ('seq-1-1-2-1', [(1, 'c'), (1, 'c'), (2, 'c'), (1, 'c')]),
-        ('seq-1-close-2-1', [(1, 'c'), (1, 'x'), (2, 'c'), (1, 'c')]),
-    ):
-        _reset_guard()
-        ev: list = []
-        keep: dict = {}
-        # each abstract thread id is a fresh real thread per call, so "same
-        # thread" sequences are executed inside one worker thread
-        import queue
-
-        qs = {t: queue.Queue() for t in (1, 2)}
-        done = queue.Queue()
-
-        def worker(t):
-            stores = []
-            while True:
-                cmd = qs[t].get()
-                if cmd == 'q':
-                    for s in stores:
-                        s.close()
-                    return
-                if cmd == 'c':
-                    try:
-                        stores.append(TS.create())
-                        done.put('yes')
-                    except RuntimeError:
-                        done.put('no')
-                elif cmd == 'x':
-                    if stores:
-                        stores.pop().close()
+    def worker(t):
+        stores = []
+        while True:
+            cmd = qs[t].get()
+            if cmd == 'q':
+                for s in stores:
+                    s.close()
+                return
+            if cmd == 'x':
+                if stores:
+                    stores.pop().close()
                     done.put('closed')
+                else:
+                    done.put('nothing')  # the thread holds no store: not an event
+                continue
+            try:
+                stores.append(_constructor(cmd, tmp))
+                done.put('yes')
+            except MachineryError as e:
+                done.put(f'machinery: {e}')
+            except RuntimeError as e:
+                done.put('no' if 'different threads' in str(e) else 'failed')
+            except Exception:
+                done.put('failed')
 
-        ths = {t: threading.Thread(target=worker, args=(t,)) for t in (1, 2)}
-        for th in ths.values():
-            th.start()
+    ths = {t: threading.Thread(target=worker, args=(t,)) for t in (1, 2)}
+    for th in ths.values():
+        th.start()
+    try:
         for t, cmd in script:
-            if cmd == 'c':
-                ev.append({'op': 'call', 't': t})
-                qs[t].put('c')
-                ev.append({'op': 'ret', 't': t, 'ok': done.get()})
-            else:
+            if cmd == 'x':
                 qs[t].put('x')
-                done.get()
-                ev.append({'op': 'close', 't': t})
+                if done.get() == 'closed':
+                    ev.append({'op': 'close', 't': t, 'kind': '-', 'ok': '-'})
+            else:
+                ev.append({'op': 'call', 't': t, 'kind': cmd, 'ok': '-'})
+                qs[t].put(cmd)
+                r = done.get()
+                if r.startswith('machinery'):
+                    raise MachineryError(r)
+                ev.append({'op': 'ret', 't': t, 'kind': cmd, 'ok': r})
+    finally:
         for t in (1, 2):
             qs[t].put('q')
         for th in ths.values():
             th.join()
-        out.append({'t': name, 'ev': ev})
-    _reset_guard()
-    return out
+        _reset_guard()
+    return ev
 
 
 def run(ctx: Ctx):
     ctx.rule = (
         'schedules = all interleavings (TLC-enumerated) of the N guard-region line events of two threads each '
-        'constructing a first store, N discovered by a solo dry run; plus 5 sequential scripts; '
+        'constructing a first store, N discovered by a solo dry run; plus sequential scripts over {create, close, 3 kinds of failing constructor} x 2 threads: '
+        'every StoreGuard behaviour of length 3 (4 thorough), random walks of length 7, 5 hand-written orders; '
         'non-trivial = schedule in which both threads are inside the guard region at the same time'
     )
     ctx.assumptions += [
@@ -299,7 +300,7 @@ def run(ctx: Ctx):
 
     if ctx.replay:
         case = json.loads(Path(ctx.replay).read_text())['case']
-        schedules = [case['schedule']] if 'schedule' in case else []
+        schedules = [case['schedule']] if 'schedule' in case and 'script_ops' not in case else []
         n = case.get('region', discover_region())
     else:
         n = discover_region()
@@ -323,18 +324,53 @@ def run(ctx: Ctx):
         ctx.case_done({'schedule': sch}, nontrivial=both_inside)
         ctx.sample({'schedule': sch, 'results': {str(k): v for k, v in results.items()}}, limit=3)
     _reset_guard()
-    seq = sequential_traces()
-    for t in seq:
-        ctx.case_done(t)
-        sched_of[t['t']] = {'script': t['t']}
-    traces += seq
+    # sequential scripts: the hand-written orders, every behaviour of
+    # GuardGen.tla of length D, and random walks of greater length
+    import shutil
+    import tempfile
+
+    if ctx.replay:
+        case = json.loads(Path(ctx.replay).read_text())['case']
+        scripts = {case['name']: case['script_ops']} if 'script_ops' in case else {}
+        expected = {case['name']: case.get('expected')} if 'script_ops' in case else {}
+    else:
+        scripts = {k: [list(x) for x in v] for k, v in HAND_SCRIPTS.items()}
+        expected = {}
+        d = 3 if ctx.quick else 4
+        gen = tlc.check(ctx, 'guard/GuardGen', 'guard/GuardGen.cfg', sub={'D = 3': f'D = {d}'}, workers=4)
+        walks = tlc.check(
+            ctx, 'guard/GuardGen', 'guard/GuardGen.cfg', workers=1, simulate=f'num={200 if ctx.quick else 3000}', depth=12, seed=ctx.seed,
+            sub={'D = 3': 'D = 7', 'Rand = FALSE': 'Rand = TRUE'},
+        )  # fmt: skip
+        seen_ops = set()
+        for h in gen['emitted'] + walks['emitted']:
+            ops = tuple((e['t'], e['op']) for e in h)
+            if ops in seen_ops:  # the same script with another resolution of the specification's nondeterminism
+                continue
+            seen_ops.add(ops)
+            name = f'script-{len(seen_ops)}'
+            scripts[name] = [[e['t'], e['op']] for e in h]
+            expected[name] = [e['ok'] for e in h]
+    tmp = Path(tempfile.mkdtemp(prefix='c20-'))
+    try:
+        (tmp / 'not-netcdf.nc').write_bytes(b'this is not a NetCDF file\n' * 8)
+        for name, script in scripts.items():
+            ev = run_script(script, tmp)
+            sched_of[name] = {'name': name, 'script_ops': script, 'expected': expected.get(name)}
+            traces.append({'t': name, 'ev': ev})
+            kinds = {op for _, op in script}
+            ctx.case_done({'script': script}, nontrivial=len({t for t, _ in script}) > 1 and bool(kinds & {'fa', 'fo', 'fm', 'x'}))
+            if len(script) > 3:
+                ctx.sample({'script': script, 'results': [e['ok'] for e in ev if e['op'] != 'call']}, limit=2)
+    finally:
+        shutil.rmtree(tmp, ignore_errors=True)
     rej = tlc.validate_traces(ctx, 'guard/GuardTrace', 'guard/GuardTrace.cfg', traces)
     by = {t['t']: t for t in traces}
     for r in rej:
         info = sched_of[r['t']]
         tr = by[r['t']]
         oks = [e['t'] for e in tr['ev'] if e['op'] == 'ret' and e.get('ok') == 'yes']
-        kind = 'race' if r['t'].startswith('sched-') else r['t']
+        kind = 'race' if r['t'].startswith('sched-') else ('script' if r['t'].startswith('script-') else r['t'])
         ctx.violation(
             f'{kind}:not-linearizable',
             f'{r["t"]}: constructor results {[(e["t"], e["ok"]) for e in tr["ev"] if e["op"] == "ret"]} are not explained by an atomic '
